@@ -27,10 +27,11 @@ type posdelivCfg struct {
 	remove  bool   // an H thread calls RemoveHistory
 	histSz  int
 	staleEp bool // recover with a foreign epoch
+	tick    bool // mode held: a T thread runs the periodic position check (check delay always elapsed); a duplicated delivery may also arrive late, after the check
 }
 
 func (c posdelivCfg) name() string {
-	return fmt.Sprintf("%s/pre%d/from%d/filter-%s/faults%v/npub%d/remove%v/size%d/stale%v", c.mode, c.pre, c.from, c.filter, c.faults, c.npub, c.remove, c.histSz, c.staleEp)
+	return fmt.Sprintf("%s/pre%d/from%d/filter-%s/faults%v/npub%d/remove%v/size%d/stale%v", c.mode, c.pre, c.from, c.filter, c.faults, c.npub, c.remove, c.histSz, c.staleEp) + map[bool]string{true: "/tick"}[c.tick]
 }
 
 var posdelivCfgs = map[string]posdelivCfg{}
@@ -55,6 +56,10 @@ func posdelivVariants(tier string) []vsched.Variant {
 		add(posdelivCfg{mode: "server", pre: 1, npub: 2}, 1, 1, 75)
 		add(posdelivCfg{mode: "recover", pre: 2, from: 1, npub: 1, remove: true}, 1, 1, 75)
 		add(posdelivCfg{mode: "recover", pre: 2, from: 2, npub: 2, staleEp: true}, 0, 1, 75)
+		// an established subscription, its periodic position check (a stream-top read) overlapping live
+		// deliveries, broker redelivering a publication late
+		add(posdelivCfg{mode: "held", pre: 1, npub: 1, faults: true, tick: true}, 1, 2, 75)
+		add(posdelivCfg{mode: "held", pre: 1, npub: 2, tick: true}, 1, 2, 75)
 		return out
 	}
 	// thorough: deviation bound 2 on a selection that covers every mode, filter and fault dimension
@@ -76,6 +81,8 @@ func posdelivVariants(tier string) []vsched.Variant {
 		add(c, 2, 4, 150)
 	}
 	add(posdelivCfg{mode: "recover", pre: 2, from: 0, npub: 3, filter: "client", faults: true}, 2, 8, 200)
+	add(posdelivCfg{mode: "held", pre: 1, npub: 2, faults: true, tick: true}, 2, 8, 200)
+	add(posdelivCfg{mode: "held", pre: 2, npub: 2, tick: true}, 2, 4, 150)
 	return out
 }
 
@@ -96,7 +103,11 @@ func posdelivBody(cfg posdelivCfg) func() {
 	return func() {
 		vsched.Quiet(true)
 		const ch = "ch"
-		n := vNewNode(nil)
+		n := vNewNode(func(c *Config) {
+			if cfg.tick {
+				c.ClientChannelPositionCheckDelay = time.Nanosecond // every tick checks the position
+			}
+		})
 		broker := vInstallChaosBroker(n, false)
 		n.OnConnect(func(c *Client) {
 			c.OnSubscribe(func(e SubscribeEvent, cb SubscribeCallback) {
@@ -130,7 +141,15 @@ func posdelivBody(cfg posdelivCfg) func() {
 		for i := 0; i < cfg.pre; i++ {
 			publish(i)
 		}
+		if cfg.mode == "held" {
+			cl.cmd(&protocol.Command{Subscribe: &protocol.SubscribeRequest{Channel: ch}})
+		}
 		vsched.WaitIdle()
+		if cfg.tick {
+			vsched.Advance(int64(2 * time.Second)) // the position check is due (its clock has second granularity)
+			broker.historyDelay = int64(time.Second) // the stream-top read of the position check answers late
+			vsched.SetHorizon(int64(3 * time.Second))
+		}
 		broker.queue = true
 		vsched.Quiet(false)
 
@@ -139,6 +158,17 @@ func posdelivBody(cfg posdelivCfg) func() {
 		var wg sync.WaitGroup
 		wg.Add(3)
 		pubDone := make(chan struct{})
+		tickDone := make(chan struct{})
+		if cfg.tick {
+			wg.Add(1)
+			go func() { // T: the connection's periodic tick (presence update + position check)
+				defer wg.Done()
+				cl.c.updatePresence()
+				close(tickDone)
+			}()
+		} else {
+			close(tickDone)
+		}
 		go func() { // P
 			defer wg.Done()
 			for i := 0; i < cfg.npub; i++ {
@@ -148,11 +178,15 @@ func posdelivBody(cfg posdelivCfg) func() {
 		}()
 		go func() { // D
 			defer wg.Done()
-			var delayed []vBrokerEvent
+			var delayed, late []vBrokerEvent
 			handle := func(e vBrokerEvent) {
 				c := 0
 				if cfg.faults {
-					c = vsched.Choose(4)
+					k := 4
+					if cfg.tick {
+						k = 5
+					}
+					c = vsched.Choose(k)
 				}
 				switch c {
 				case 0:
@@ -167,6 +201,10 @@ func posdelivBody(cfg posdelivCfg) func() {
 					faultsInjected++
 					delayed = append(delayed, e)
 					return
+				case 4: // delivered now and redelivered late (after the periodic check has finished)
+					faultsInjected++
+					broker.deliver(e)
+					late = append(late, e)
 				}
 				for _, d := range delayed {
 					broker.deliver(d)
@@ -190,6 +228,12 @@ func posdelivBody(cfg posdelivCfg) func() {
 					for _, d := range delayed {
 						broker.deliver(d)
 					}
+					if len(late) > 0 {
+						<-tickDone
+						for _, d := range late {
+							broker.deliver(d)
+						}
+					}
 					return
 				}
 			}
@@ -202,6 +246,7 @@ func posdelivBody(cfg posdelivCfg) func() {
 		go func() { // S
 			defer wg.Done()
 			switch cfg.mode {
+			case "held": // subscribed in the setup
 			case "fresh", "posonly":
 				req := &protocol.SubscribeRequest{Channel: ch}
 				if cfg.filter == "client" {
